@@ -376,7 +376,8 @@ def run(prog, rep):
                 if st["k"] == "assign" and st["rv"]["k"] == "aggregate" and st["rv"].get("variant") == "DuplicateVariable":
                     for g in dominating_guards(body, tr, b):
                         cc = canon(g.cond)
-                        structural = (g.variant in ("Some", "None", "Unforced", "Continue", "Ok") and re.search(r"HashMap::insert\(|Iterator::next\(|arg:values|Try::branch\(", cc) is not None)
+                        structural = (g.variant in ("Some", "None", "Unforced", "Continue", "Ok") and re.search(r"HashMap::insert\(|Iterator::next\(|arg:values|Try::branch\(", cc) is not None) or \
+                            re.match(r"^Option::(is_none|is_some)\(&HashMap::insert\(", cc) is not None     # `if values.insert(..).is_none() { continue }`
                         if not structural:
                             extra.append("%s = %s" % (cc[:100], g.value if g.value is not None else g.variant))
         rep.check(not extra, "C04.D", "%s :: duplicate is unconditional" % f.id, f.loc(), "no further condition decides whether a second definition is reported",
